@@ -33,6 +33,10 @@ pub struct DbCfg {
     pub prepopulate: bool,
     pub upper_levels: usize,
     pub seed: [u8; 16],
+    /// creation-time options as PASSED at a reopen of an existing directory (they must be ignored: the values in the
+    /// meta page count): `None` = pass the creation values again
+    pub reopen_seed: Option<[u8; 16]>,
+    pub reopen_buckets: Option<u32>,
 }
 
 impl DbCfg {
@@ -51,6 +55,8 @@ impl DbCfg {
             prepopulate: rng.chance(1, 2),
             upper_levels: rng.below(4),
             seed,
+            reopen_seed: None,
+            reopen_buckets: None,
         }
     }
     /// a different runtime configuration for the same directory (persistent parameters kept)
@@ -60,14 +66,21 @@ impl DbCfg {
         c.seed = self.seed;
         c.rollback = self.rollback;
         c.maxlog = self.maxlog;
+        // every second reopen passes another hash-table seed / size than the directory was created with
+        if rng.chance(1, 2) {
+            let mut s = [0u8; 16];
+            s.copy_from_slice(&rng.bytes32()[..16]);
+            c.reopen_seed = Some(s);
+            c.reopen_buckets = Some(*rng.pick(&[4096u32, 8192, 16384, 64000, 1000]));
+        }
         c
     }
     pub fn options(&self, path: &str) -> Options {
         let mut o = Options::new();
         o.path(path);
         o.commit_concurrency(self.workers);
-        o.hashtable_buckets(self.buckets);
-        o.bitbox_seed(self.seed);
+        o.hashtable_buckets(self.reopen_buckets.unwrap_or(self.buckets));
+        o.bitbox_seed(self.reopen_seed.unwrap_or(self.seed));
         o.rollback(self.rollback);
         o.max_rollback_log_len(self.maxlog);
         o.warm_up(self.warm_up);
@@ -1383,6 +1396,9 @@ impl<'a> Engine<'a> {
                 let mut c = cfg_variant(&self.cfg, v + 1);
                 c.buckets = self.cfg.buckets;
                 c.seed = self.cfg.seed;
+                // creation-time options passed at a reopen must be ignored, whatever the variant passes
+                c.reopen_seed = Some([(v as u8).wrapping_mul(29).wrapping_add(1); 16]);
+                c.reopen_buckets = Some([4096u32, 8192, 64000, 1000][v % 4]);
                 c
             }
             None => regen,
